@@ -1113,7 +1113,9 @@ class Simulation:
 
         """
         # note: this function shouldn't use logging
-        if self.options.setdefault('safe_write', True):
+        # (don't rely on the return value of `setdefault`: it is None once `options` is a Config)
+        self.options.setdefault('safe_write', True)
+        if self.options['safe_write']:
             return output_filename.with_suffix('.backup' + output_filename.suffix)
         else:
             return None
